@@ -127,7 +127,7 @@ def _work(payload):
 
 def run_items(ctx, label, kind, items):
     ctx.phase("%s (%d)" % (label, len(items)))
-    nch = max(1, min(len(items), core.NPROC * 4))
+    nch = max(1, min(len(items), core.NPROC * 2))
     for cnt, fails in core.pmap(_work, [(kind, items[k::nch]) for k in range(nch)]):
         ctx.count("evaluations", cnt)
         ctx.count(kind + "_cases", cnt)
